@@ -15,7 +15,7 @@ func init() {
 	register("C15", &propDef{
 		Title:           "Unpack materialises exactly what a well-formed archive says",
 		ConfigSensitive: true,
-		Rules: []func(*Checker){ruleGate("C15.gate"), ruleBodyAlwaysCopied("C15.bodycopied"), ruleBodyWrittenPlainly("C15.plaincopy"), ruleC15Deferred, ruleC15Truncate, ruleMaterialise("C15.materialise"), ruleRestore("C15.restore"), ruleMeta("C15.meta"), ruleC01NoFollowAs("C15.lastwins"), ruleC15XHeader, ruleC15Retry, ruleLinkRestore("C15.linkrestore"), ruleRestoreOrderKept("C15.stableorder"), aliasRule(ruleC01Replace, "C01.replace", "C15.replace", 1),
+		Rules: []func(*Checker){ruleGate("C15.gate"), ruleBodyAlwaysCopied("C15.bodycopied"), ruleBodyWrittenPlainly("C15.plaincopy"), ruleNoSingleMember("C15.multistream"), ruleC15Deferred, ruleC15Truncate, ruleMaterialise("C15.materialise"), ruleRestore("C15.restore"), ruleMeta("C15.meta"), ruleC01NoFollowAs("C15.lastwins"), ruleC15XHeader, ruleC15Retry, ruleLinkRestore("C15.linkrestore"), ruleRestoreOrderKept("C15.stableorder"), aliasRule(ruleC01Replace, "C01.replace", "C15.replace", 1),
 			aliasRuleFiltered(ruleC02LinkTarget, "C02.linktarget", "C15.linktarget", 1, func(o Oblig) bool { return strings.Contains(o.Key, "Unpack") }),
 			func(c *Checker) {
 				unpackHelpers = map[string]bool{}
